@@ -115,6 +115,11 @@ func c18Run(w c18Work, rendezvous func()) (h uint64, err error) {
 			v := sys.Bus.EaRead(a)
 			sys.Bus.EaWrite(a, v+byte(i))
 			d.add(a, v)
+			// the memory-mapped I/O window of the same System (its own latched register file)
+			io := uint32(rig.Mix(w.Seed, uint32(5*i))&0x3f)<<16 | 0x2100 + uint32(rig.Mix(w.Seed, uint32(5*i+1)))
+			iv := sys.Bus.EaRead(io)
+			sys.Bus.EaWrite(io, iv+rig.Mix(w.Seed, uint32(i))+1)
+			d.add(io, iv)
 		}
 		d.add(sys.ROM[:0x10000], sys.SRAM[:], sys.WRAM[:0x10000])
 	case "pri", "alt":
